@@ -357,7 +357,8 @@ package server
 //@   pure
 
 //@ unit (*Dataset).ProcessChangesRaw
-//@   prop C02
+//@   prop C02 C08 C05
+//@   ghost emitCountG int = 0
 //@   ghost txnG int
 //@   ghost pos0 int
 //@   ghost cur int
@@ -372,7 +373,7 @@ package server
 //@   ensures [nothing-skipped] ret1 == nil ==> (forall i int :: 0 <= i && i < N(txnG) && isChange(K(txnG, i), ds.InternalID) && kseq(K(txnG, i)) >= since && kseq(K(txnG, i)) < ret0 ==> pos0 <= i && i < nextPos)
 //@   ensures [emitted-only-examined] ret1 == nil ==> (forall j int :: has(emitted, j) ==> pos0 <= j && j < nextPos)
 //@   ensures [full-feed-emits-every-examined] ret1 == nil && !latestOnly ==> (forall j int :: pos0 <= j && j < nextPos ==> has(emitted, j))
-//@   ensures [exhausted-or-limit] ret1 == nil ==> limit > 0 || nextPos == N(txnG) || !isChange(K(txnG, nextPos), ds.InternalID)
+//@   ensures [C02,C08:a-page-ends-only-when-the-change-log-is-exhausted-or-the-page-is-full] ret1 == nil ==> nextPos == N(txnG) || !isChange(K(txnG, nextPos), ds.InternalID) || (limit > 0 && emitCountG == limit)
 //@   safe slice index
 //@   at $1 call NewIterator#1
 //@     ghost txnG := txn
@@ -385,7 +386,9 @@ package server
 //@   at $1$1$1 call processChangedEntity#1 before
 //@     assert [emitted-once] !has(emitted, cur)
 //@     ghost emitted := add(emitted, cur)
+//@     ghost emitCountG := emitCountG + 1
 //@   at @latestOnlyWrapper$1 call Get#1 before
+//@     assert [C05,C02:latest-pointer-read-in-the-pages-own-read-transaction] $arg0 == txnG
 //@     assert [latest-pointer-of-this-entity] len(key) == 14 && encBE16(key, 0) == 8 && encBE32(key, 2) == ds.InternalID && encBE64(key, 6) == krid(K(txnG, cur))
 //@   at @latestOnlyWrapper$1$1 call Equal#1 before
 //@     assert [latest-only-compares-the-whole-version-key] a == v2 && b == entityChangeID
@@ -400,6 +403,7 @@ package server
 //@     invariant $itTxn[changesIterator] == txnG && !has($itRev, changesIterator) && $itPlen[changesIterator] == 6 && $itPcl[changesIterator] == 4 && $itPds[changesIterator] == ds.InternalID
 //@     invariant encBE16(searchBuffer, 0) == 4 && encBE32(searchBuffer, 2) == ds.InternalID && len(searchBuffer) == 14
 //@     invariant foundChanges <==> nextPos > pos0
+//@     invariant processed == emitCountG
 //@     invariant foundChanges ==> lastSeen == kseq(K(txnG, nextPos - 1))
 //@     invariant forall j int :: pos0 <= j && j < nextPos ==> isChange(K(txnG, j), ds.InternalID) && kseq(K(txnG, j)) >= since
 //@     invariant forall i int :: 0 <= i && i < pos0 ==> kcl(K(txnG, i)) < 4 || (kcl(K(txnG, i)) == 4 && (kf32(K(txnG, i)) < ds.InternalID || (kf32(K(txnG, i)) == ds.InternalID && kseq(K(txnG, i)) < since)))
@@ -432,7 +436,7 @@ package server
 //@   ensures tokOK(s) && tokLen(s) >= 14 ==> encBE16(ret0, 0) == tokCl(s) && encBE32(ret0, 2) == tokDs(s) && encBE64(ret0, 6) == tokRid(s)
 
 //@ unit (*Dataset).MapEntitiesRaw
-//@   prop C01
+//@   prop C01 C07
 //@   ghost txnG int
 //@   ghost seekPos int
 //@   ghost pos0 int
@@ -440,11 +444,11 @@ package server
 //@   ghost nextPos int
 //@   ghost emitted intset = emptyset()
 //@   requires ds != nil && ds.store != nil
-//@   requires [token-came-from-an-earlier-page-of-this-dataset] from != "" ==> tokOK(from) && tokLen(from) == 14 && tokCl(from) == 8 && tokDs(from) == ds.InternalID
+//@   requires [token-is-a-latest-pointer-key-handed-out-by-some-listing] from != "" ==> tokOK(from) && tokLen(from) == 14 && tokCl(from) == 8
 //@   dyncall processEntity pure
 //@   ensures [first-page-starts-at-the-first-pointer-of-the-dataset] ret1 == nil && from == "" ==> pos0 == seekPos && (forall i int :: 0 <= i && i < seekPos ==> kcl(K(txnG, i)) < 8 || (kcl(K(txnG, i)) == 8 && k64at2(K(txnG, i)) < ds.InternalID * 4294967296))
-//@   ensures [later-page-resumes-right-after-the-token-key] ret1 == nil && from != "" ==> pos0 == seekPos + 1 && (forall i int :: 0 <= i && i < seekPos ==> kcl(K(txnG, i)) < 8 || (kcl(K(txnG, i)) == 8 && (kf32(K(txnG, i)) < ds.InternalID || (kf32(K(txnG, i)) == ds.InternalID && kseq(K(txnG, i)) < tokRid(from))))) && (seekPos < N(txnG) ==> kcl(K(txnG, seekPos)) > 8 || (kcl(K(txnG, seekPos)) == 8 && (kf32(K(txnG, seekPos)) > ds.InternalID || (kf32(K(txnG, seekPos)) == ds.InternalID && kseq(K(txnG, seekPos)) >= tokRid(from)))))
-//@   ensures [visited-are-latest-pointers-of-this-dataset] ret1 == nil ==> (forall j int :: pos0 <= j && j < nextPos ==> 0 <= j && j < N(txnG) && kcl(K(txnG, j)) == 8 && k64at2(K(txnG, j)) == ds.InternalID * 4294967296)
+//@   ensures [later-page-resumes-right-after-the-token-key] ret1 == nil && from != "" && tokDs(from) == ds.InternalID ==> pos0 == seekPos + 1 && (forall i int :: 0 <= i && i < seekPos ==> kcl(K(txnG, i)) < 8 || (kcl(K(txnG, i)) == 8 && (kf32(K(txnG, i)) < ds.InternalID || (kf32(K(txnG, i)) == ds.InternalID && kseq(K(txnG, i)) < tokRid(from))))) && (seekPos < N(txnG) ==> kcl(K(txnG, seekPos)) > 8 || (kcl(K(txnG, seekPos)) == 8 && (kf32(K(txnG, seekPos)) > ds.InternalID || (kf32(K(txnG, seekPos)) == ds.InternalID && kseq(K(txnG, seekPos)) >= tokRid(from)))))
+//@   ensures [C01,C07:visited-are-latest-pointers-of-this-dataset-whatever-token-the-client-sent] ret1 == nil ==> (forall j int :: pos0 <= j && j < nextPos ==> 0 <= j && j < N(txnG) && kcl(K(txnG, j)) == 8 && k64at2(K(txnG, j)) == ds.InternalID * 4294967296)
 //@   ensures [every-visited-pointer-is-emitted] ret1 == nil ==> (forall j int :: pos0 <= j && j < nextPos ==> has(emitted, j))
 //@   ensures [emitted-only-visited] ret1 == nil ==> (forall j int :: has(emitted, j) ==> pos0 <= j && j < nextPos)
 //@   ensures [page-holds-at-most-count] ret1 == nil && count > 0 ==> nextPos - pos0 <= count
@@ -663,7 +667,7 @@ package server
 // (contract of updateDataset: see "the per-dataset items counter" below)
 
 //@ unit (*Dataset).StoreEntities
-//@   prop C04 C05 C19
+//@   prop C04 C05 C19 C01 C03 C06
 //@   requires [callers-hold-no-lock-above-dataset-level] forall l int :: has($held, l) ==> lockLevel(l) <= 2
 //@   requires [only-core-dataset-is-written-while-another-datasets-write-lock-is-held] forall d *Dataset :: has($held, addrOf(d.WriteLock)) ==> ds.ID == "core.Dataset" && d.ID != "core.Dataset"
 //@   requires-inv [the-id-lock-is-a-standalone-mutex] ds != nil && ds.store != nil ==> lockLevel(lockerAddr(ds.store.idmux)) == 4
@@ -679,7 +683,7 @@ package server
 //@   at call NewTransaction#1
 //@     ghost txnG := $result
 //@   at call UnixNano#1 before
-//@     assert [C05:version-timestamp-taken-while-holding-the-write-lock] has($held, addrOf(ds.WriteLock))
+//@     assert [C05,C01,C03,C06:version-timestamp-taken-while-holding-the-write-lock] has($held, addrOf(ds.WriteLock))
 //@   at call StoreEntitiesWithTransaction#1 before
 //@     assert [C05:previous-version-read-under-the-write-lock] has($held, addrOf(ds.WriteLock))
 //@     assert [C04:one-transaction-for-the-batch] txn == txnG && txnTime >= 0
@@ -898,13 +902,13 @@ package server
 //@   pure
 
 //@ unit (*Store).moveValue
-//@   prop C07
+//@   prop C07 C04 C14
 //@   requires s != nil
 //@   modifies none
 //@   at $1 call Delete#1 before
-//@     assert [C07:rename-removes-the-old-record] key == oldKey
+//@     assert [C07,C04,C14:rename-removes-the-old-record] key == oldKey
 //@   at $1 call Set#1 before
-//@     assert [C07:rename-writes-the-new-record-in-the-same-transaction] key == newKey && val == newValue && $arg0 == txn
+//@     assert [C07,C04,C14:rename-writes-the-new-record-in-the-same-transaction] key == newKey && val == newValue && $arg0 == txn
 
 //@ unit (*DsManager).CreateDataset
 //@   prop C07 C04 C19 C14 C05
@@ -944,7 +948,7 @@ package server
 //@   requires ds != nil
 //@   requires-inv [datasets-are-constructed-with-their-store] ds != nil ==> ds.store != nil && ds.store.NamespaceManager != nil
 //@   requires [callers-hold-no-lock-above-the-dataset-level] forall l int :: has($held, l) ==> lockLevel(l) <= 2
-//@   requires [C05:core-dataset-lock-free-when-another-datasets-counter-is-updated] ds.ID != "core.Dataset" ==> (forall d *Dataset :: has($held, addrOf(d.WriteLock)) ==> d.ID != "core.Dataset")
+//@   requires [C04,C05:core-dataset-lock-free-when-another-datasets-counter-is-updated] ds.ID != "core.Dataset" ==> (forall d *Dataset :: has($held, addrOf(d.WriteLock)) ==> d.ID != "core.Dataset")
 //@   frame-assumed preserves Dataset.*, Store.*
 //@   at call GetEntity#1 before
 //@     assert [C19:meta-entity-looked-up-in-core-dataset-only] len(datasets) == 1 && datasets[0] == "core.Dataset" && mergePartials
@@ -1024,7 +1028,7 @@ package server
 //@   pure
 
 //@ unit (*Store).ExecuteTransaction
-//@   prop C04 C05
+//@   prop C04 C05 C01 C03 C06
 //@   ghost idsCommittedG bool = false
 //@   ghost txnG int = 0
 //@   requires s != nil && transaction != nil && s.MetaCtx != nil
@@ -1047,7 +1051,7 @@ package server
 //@   at call Commit#1 before
 //@     assert [C04:ids-committed-before-data] idsCommittedG && $arg0 == txnG
 //@   at call UnixNano#1 before
-//@     assert [C05:version-timestamp-taken-after-every-dataset-lock] forall a int :: 0 <= a && a < len(datasetNames) ==> has($held, addrOf(datasets[datasetNames[a]].WriteLock))
+//@     assert [C05,C01,C03,C06:version-timestamp-taken-after-every-dataset-lock] forall a int :: 0 <= a && a < len(datasetNames) ==> has($held, addrOf(datasets[datasetNames[a]].WriteLock))
 //@   loop 1
 //@     invariant forall a int :: 0 <= a && a < len(datasetNames) ==> visited(datasetNames[a])
 //@     invariant forall a int, b int :: 0 <= a && a < b && b < len(datasetNames) ==> datasetNames[a] != datasetNames[b]
